@@ -59,6 +59,12 @@ CHECKS = {
  "C17": ("exploration", "all 32 option combinations plus generated credentials as whole connections through real TLS; decrypted payload oracle + negative substring search over every byte on the wire",
          "Connector::connect with every combination of NLA, restricted admin, blank credentials, auto logon, password/hash against the reference CredSSP + RDP server: TSCredentials and Client Info contents per mode, request flags, INFO_AUTOLOGON; the password's UTF-8/UTF-16LE/BE encodings must not occur on the raw transport, in NTLM tokens, or in any other TLS-protected message.",
          "Trusted: reference server decryption (OpenSSL + refimpl seal model), strict Client Info parser.", "DESIGN §6 C17"),
+ "C19": ("exploration", "property-based testing of the binary's private blit (source included from the working tree): bounded-exhaustive small geometries + generated geometries/encodings; oracle = safe reference blit, canary region, AddressSanitizer build with case journal",
+         "Every rectangle over coordinates {0..5, 65535} for several tiny windows and image sizes, plus 150 k (10 M thorough) generated window / rectangle / image / depth / encoding combinations; run twice: normal build (panic capture, canary behind the buffer, exact-copy and nothing-else-changed oracle) and AddressSanitizer build (any out-of-bounds access aborts and is attributed to the journalled case).",
+         "Trusted: include!-based access to fast_bitmap_transfer (no repository change), ASan via the stable toolchain with RUSTC_BOOTSTRAP=1, reference encoders of C09 for compressed inputs.", "DESIGN §6 C19"),
+ "C20": ("exploration", "scenario-based testing of the binary's receive thread on a real TLS session: generated record/segment packings x end modes x protocol points x concurrent writers with deadline + 'poke' (metamorphic) confirmation",
+         "A fixed matrix (every end mode at every protocol point; every packing) plus 150 (5 000 thorough) generated scenarios run one at a time: every PDU sent must be dispatched while the server stays silent (a miss is confirmed by a poke PDU), the thread must finish within 5 s of the end event and release the shared client, nothing is lost or reordered.",
+         "Weakest claim: liveness approximated by deadlines with >250x margin; the harness owns the server's schedule only, client-side interleavings are perturbed (delays, writer threads) but not controlled. Socket pair instead of TCP (no RST).", "DESIGN §6 C20"),
 }
 NOT_YET = "check not built yet in this session (machinery under construction; see DESIGN.md §10 build order)"
 def main():
@@ -66,7 +72,7 @@ def main():
     hooks = [l.split()[0] for l in src_commits if "verif-hooks" in l]
     m = {
      "version": 1,
-     "setup_cmd": "cd /verif/harness && CARGO_NET_OFFLINE=true cargo build --release --offline 2>&1 | tail -3",
+     "setup_cmd": "cd /verif/harness && CARGO_NET_OFFLINE=true cargo build --release --offline 2>&1 | tail -2 && RUSTC_BOOTSTRAP=1 RUSTFLAGS='-Zsanitizer=address --cfg verif_asan' CARGO_NET_OFFLINE=true cargo build --release --offline -p guicheck --target x86_64-unknown-linux-gnu --target-dir target/asan 2>&1 | tail -2",
      "hooks": {
        "guard": "cargo feature verif-hooks (off by default)",
        "enable": "the harness depends on rdp-rs = { path = \"/repo\", features = [\"verif-hooks\", \"integration\"] }",
@@ -75,7 +81,8 @@ def main():
        "add_only": True,
      },
      "engines": [
-       {"name": "rdpcheck", "path": "harness/rdpcheck", "serves_properties": sorted(CHECKS.keys()), "kind_free_text": "proptest-driven byte->case decoders, bounded-exhaustive enumerations, independent reference codecs/models (harness/refimpl), evidence + replay engine (harness/engine)"},
+       {"name": "guicheck", "path": "harness/guicheck", "serves_properties": ["C19", "C20"], "kind_free_text": "includes src/bin/mstsc-rs.rs of the working tree into a module to reach its private functions; normal + AddressSanitizer builds; real TLS session scenarios for the receive thread"},
+       {"name": "rdpcheck", "path": "harness/rdpcheck", "serves_properties": sorted(k for k in CHECKS.keys() if k not in ("C19", "C20")), "kind_free_text": "proptest-driven byte->case decoders, bounded-exhaustive enumerations, independent reference codecs/models (harness/refimpl), evidence + replay engine (harness/engine)"},
      ],
      "checks": [],
      "not_applicable": [],
@@ -90,7 +97,7 @@ def main():
               "thorough_cmd": "./check %s thorough" % pid,
               "evidence_file": "/verif/evidence/%s.json" % pid,
               "replay_cmd_template": "./check replay {path}",
-              "engine": "rdpcheck",
+              "engine": "guicheck" if pid in ("C19", "C20") else "rdpcheck",
               "level_claimed": {"category": cat, "text": text, "design_ref": ref},
               "level_note": note,
               "technique": tech,
